@@ -62,6 +62,7 @@ class DScn:
     machine_methods: list = field(default_factory=list)   # names defined on the machine class
     model_methods: list = field(default_factory=list)     # names defined on the model class
     guard_vals: dict = field(default_factory=dict)         # guard name -> bool it returns
+    late_guards: list = field(default_factory=list)    # guard names also offered by a listener attached after construction
     coro: bool = False       # the machine has a coroutine callback (one that no diagram shows): async engine, not
                              # activated by its constructor — the first instance diagram has no current state (D38)
     fill: str | None = None          # custom DotGraphMachine.state_active_fillcolor
@@ -369,6 +370,9 @@ def gen_scenario(rng: random.Random, name: str, ids=None) -> DScn:
     s.coro = rng.random() < 0.2
     if s.coro:
         s.rtc = True
+    named_guards = sorted({c[0] for t in s.trans for c in t.cond + t.unless if c[1] == "name" and c[0] in GUARD_POOL})
+    if named_guards and rng.random() < 0.3:
+        s.late_guards = rng.sample(named_guards, rng.randint(1, len(named_guards)))
     if rng.random() < 0.35:      # a DotGraphMachine subclass with its own active-state style
         s.fill = rng.choice(FILLS)
         s.pen = rng.choice(PENS)
